@@ -209,7 +209,7 @@ def parse_stderr(stderr):
     return blocks
 
 
-def _run_unit_once(name, workcopy, outdir, timeout=600, rlimit=None, dropped=()):
+def _run_unit_once(name, workcopy, outdir, timeout=600, rlimit=None, dropped=(), drop_cands=()):
     """Run one unit. Returns dict(status=pass|fail|undecided, ...)."""
     t0 = time.time()
     res = dict(unit=name, status="undecided", failed=[], reason="", obligations=0, discharged=0,
@@ -228,6 +228,12 @@ def _run_unit_once(name, workcopy, outdir, timeout=600, rlimit=None, dropped=())
         res["reason"] = str(e)
         res["wall_s"] = time.time() - t0
         return res
+    if drop_cands:
+        # Houdini on CANDIDATE invariant clauses (lines tagged `// @cand NAME`): proof artefacts of the
+        # annotation, not claims -- a clause that is not inductive for the code at hand is left out and
+        # the real obligations (preconditions of the bound callees, postconditions) are checked without it
+        text = "\n".join(("" if any(("// @cand %s" % c) in ln for c in drop_cands) else ln) for ln in text.split("\n"))
+        log = log + ["CANDIDATE invariant clause dropped (not inductive for this code): %s" % c for c in sorted(drop_cands)]
     res["rewrite_log"] = log
     res["under_contract"] = under
     os.makedirs(outdir, exist_ok=True)
@@ -335,7 +341,13 @@ def _run_unit_once(name, workcopy, outdir, timeout=600, rlimit=None, dropped=())
             ob = contract_tags(b)
         if not ob:
             ob = [fn_ob.get(fn, "%s.%s" % (name, fn))]
-        failures.append(dict(obligations=ob, function=fn, message=b["msg"], detail=b["text"]))
+        cands = []
+        for ln in b["lines"]:
+            if 1 <= ln <= len(lines):
+                cm = re.search(r"// @cand (\S+)", lines[ln - 1])
+                if cm:
+                    cands.append(cm.group(1))
+        failures.append(dict(obligations=ob, function=fn, message=b["msg"], detail=b["text"], cands=cands))
     n_funcs = len([f for f in funcs if f["function"] != "__canary_must_fail"])
     res["obligations"] = vr.get("verified", 0) + vr.get("errors", 0) - 1  # minus the canary
     res["discharged"] = vr.get("verified", 0)
@@ -365,12 +377,25 @@ def run_unit(name, workcopy, outdir, timeout=600, rlimit=None):
     postcondition, drop that candidate and run once more (Houdini): a helper that does establish the
     candidate keeps callers provable, one that does not makes the caller's obligation fail."""
     r = _run_unit_once(name, workcopy, outdir, timeout, rlimit)
-    helpers = set(r.get("helpers", []))
-    bad = {f["function"] for f in r.get("failed", []) if f["function"] in helpers}
-    if r["status"] == "fail" and bad:
-        r2 = _run_unit_once(name, workcopy, outdir, timeout, rlimit, dropped=tuple(bad))
-        r2["rewrite_log"] = r2.get("rewrite_log", []) + ["HELPER candidates dropped for: %s" % ", ".join(sorted(bad))]
-        return r2
+    drop, bad = set(), set()
+    for _round in range(6):
+        fl = r.get("failed", [])
+        if r["status"] != "fail" or not fl:
+            break
+        helpers = set(r.get("helpers", []))
+        # every failure must be a CANDIDATE failure (a helper's candidate postcondition, or a clause tagged
+        # `// @cand`): candidates are proof artefacts, not claims; anything else is a real failure
+        if not all(f.get("cands") or f["function"] in helpers for f in fl):
+            break
+        nd = {c for f in fl for c in f.get("cands", [])} - drop
+        nb = {f["function"] for f in fl if f["function"] in helpers} - bad
+        if not nd and not nb:
+            break
+        drop |= nd
+        bad |= nb
+        r = _run_unit_once(name, workcopy, outdir, timeout, rlimit, dropped=tuple(sorted(bad)), drop_cands=tuple(sorted(drop)))
+        if bad:
+            r["rewrite_log"] = r.get("rewrite_log", []) + ["HELPER candidates dropped for: %s" % ", ".join(sorted(bad))]
     return r
 
 
